@@ -199,12 +199,12 @@ theorem compressFrame_parts {H : Type} (hash : Bool) (enc : BlockEnc H) (c : Com
     (script : Nat → MBlock) (data : List Byte) (frags : List Nat) (hw : w ≤ 2 ^ 41)
     (frame : List Byte) (c' : Compressor H)
     (hrun : compressFrame hash enc c w script data frags = .ok (frame, c')) :
-    ∃ (e : Nat) (r : LoopOut H), 1 ≤ e ∧ e ≤ 31 ∧ w ≤ 2 ^ (10 + e) ∧ declaredWindow w = 2 ^ (10 + e) ∧
+    ∃ (e : Nat) (r : LoopOut H), 1 ≤ e ∧ e ≤ 31 ∧ (w ≤ 2 ^ (10 + e) ∧ 131072 ≤ 2 ^ (10 + e)) ∧ declaredWindow w = 2 ^ (10 + e) ∧
       compressLoop (emitBlock c.level enc) script (data.length + 1) 0 { c.st with lastHuff := none } [] data frags = .ok r ∧
       frame = [40, 181, 47, 253, frameDescriptor hash, e * 8] ++ r.bytes ++
         (if hash then leBytes 4 (Spec.Xxh64.checksum32 r.hashed) else []) ∧
       c'.matcherIdx = r.idx := by
-  obtain ⟨e, he1, he31, hwd, hwe⟩ := windowDescriptor_spec w hw
+  obtain ⟨e, he1, he31, hwd, hwe, hbe⟩ := headerDescriptor_spec w hw
   unfold compressFrame at hrun
   simp only [frameHeader, hwd, frameResetsMatcher_eq, frameResetsHuff_eq, frameReseedsHasher_eq, ↓reduceIte] at hrun
   split at hrun
@@ -212,7 +212,7 @@ theorem compressFrame_parts {H : Type} (hash : Bool) (enc : BlockEnc H) (c : Com
   · rename_i r hloop
     simp only [Except.ok.injEq, Prod.mk.injEq] at hrun
     obtain ⟨hframe, hc'⟩ := hrun
-    refine ⟨e, r, he1, he31, hwe, declaredWindow_of w e hwd, hloop, ?_, ?_⟩
+    refine ⟨e, r, he1, he31, ⟨hwe, hbe⟩, declaredWindow_of w e hwd, hloop, ?_, ?_⟩
     · rw [← hframe, magic_bytes]; rfl
     · rw [← hc']
 
